@@ -51,6 +51,30 @@ def _data(seed, shape, kind):
     return rs.standard_normal(shape)
 
 
+LAYS = st.lists(st.sampled_from(gen.LAYOUTS), min_size=4, max_size=4)   # X at fit, y at fit, X at use, Y at use
+PDTYPES = [None, None, "int64", "int32", "uint8", "bool"]
+
+
+def _L(a, case, k):
+    """same values in the memory layout drawn for role k (C / Fortran / transposed view / strided / offset view)"""
+    lays = case.get("lays")
+    a = np.array(a)
+    return gen.layout(a, lays[k]) if lays else a
+
+
+def _cast(A, dt):
+    """integer / boolean valued version of A in dtype dt (and the same values as floats, for the oracle)"""
+    if dt is None:
+        return A, A
+    if dt == "bool":
+        B = np.abs(A) >= 1
+    elif dt == "uint8":
+        B = np.abs(np.rint(A)).astype("uint8")
+    else:
+        B = np.rint(A).astype(dt)
+    return B, B.astype(float)
+
+
 def contract(X, W):
     """out[i, o...] = sum_f X[i, f...] W[f..., o...]   (einsum sublists)"""
     X, W = np.asarray(X), np.asarray(W)
@@ -78,7 +102,7 @@ def _reg_case(draw, est, ykind, tier):
          "iters": draw(st.sampled_from([1, 2, 3, 10, 30])),
          "tol": draw(st.sampled_from([None, None, 1e-1])),
          "rs": draw(st.sampled_from(["int", "RandomState"])),
-         "lay": draw(st.sampled_from(["C", "C", "F", "strided"])),
+         "lays": draw(LAYS), "pdtype": draw(st.sampled_from(PDTYPES)),
          "n_new": draw(st.integers(1, 5))}
     if ykind == "scalar":
         c["out"] = []
@@ -111,8 +135,7 @@ def _fit_reg(est, case):
         e = CPRegressor(weight_rank=case["rank"], **kw)
     else:
         e = TuckerRegressor(weight_ranks=list(case["ranks"]), **kw)
-    Xl = gen.layout(X, case["lay"])
-    e.fit(Xl, y.copy())
+    e.fit(_L(X, case, 0), _L(y, case, 1))
     return e, X, y, Xnew
 
 
@@ -121,7 +144,7 @@ def _reg_labels(est, case, e):
     rk = case["rank"] if est == "cp" else max(case["ranks"])
     return {"nontrivial": rk >= 2 or len(case["out"]) >= 1 or order >= 3,
             "labels": [f"order={order}", f"yorder={len(case['out'])}", f"rank={rk}", f"iters={case['iters']}",
-                       f"stopped_early={getattr(e, 'n_iterations_', case['iters']) < case['iters']}", f"lay={case['lay']}",
+                       f"stopped_early={getattr(e, 'n_iterations_', case['iters']) < case['iters']}", f"lay_fit={case['lays'][0]}", f"lay_use={case['lays'][2]}", f"pdtype={case.get('pdtype')}",
                        f"rs={case['rs']}"]}
 
 
@@ -130,10 +153,14 @@ def o_reg_predict(est):
         e, X, y, Xnew = _fit_reg(est, case)
         wshape = tuple(case["sides"]) + tuple(case["out"])
         W = finite(assert_shape(e.weight_tensor_, wshape, f"{est}/weight_tensor_/shape"), f"{est}/weight_tensor_/finite")
-        for tag, A in (("train", X), ("fresh", Xnew), ("train_layout", gen.layout(X, case["lay"]))):
-            got = e.predict(A)
-            want = contract(A, W)
-            close(got, want, f"{est}/predict/{tag}", rel=REL, scale=contract_scale(A, W))
+        for tag, A in (("train", X), ("fresh", Xnew)):
+            got = e.predict(_L(A, case, 2))
+            close(got, contract(A, W), f"{est}/predict/{tag}", rel=REL, scale=contract_scale(A, W))
+            if case.get("pdtype"):
+                # integer / boolean inputs (counts, raw images): same values, float contraction
+                Ai, Af = _cast(A, case["pdtype"])
+                got = e.predict(_L(Ai, case, 2))
+                close(got, contract(Af, W), f"{est}/predict/{tag}/integer-dtype-input", rel=REL, scale=max(contract_scale(Af, W), 1e-300))
         return _reg_labels(est, case, e)
     return oracle
 
@@ -186,7 +213,7 @@ def _plsr_case(draw, ykind, tier, metamorphic=False):
          "ykind": draw(st.sampled_from(["random", "model"])),
          "xkind": "normal" if metamorphic else draw(st.sampled_from(["normal", "normal", "int"])),
          "iters": draw(st.sampled_from([None, None, 2, 5])),
-         "n_new": draw(st.integers(1, 5))}
+         "n_new": draw(st.integers(1, 5)), "lays": draw(LAYS)}
     if metamorphic:
         c["shiftX"] = draw(st.lists(st.integers(-32, 32), min_size=gen.prod(sides), max_size=gen.prod(sides)))
         c["shiftY"] = draw(st.lists(st.integers(-32, 32), min_size=c["p"] or 1, max_size=c["p"] or 1))
@@ -220,8 +247,12 @@ def _support(X):
 def _plsr_fit(case, X, Y):
     kw = {} if case["iters"] is None else {"n_iter_max": case["iters"]}
     e = CP_PLSR(case["ncomp"], **kw)
+    if case.get("xkind") == "int" and case["ncomp"] > _support(X):
+        # integer data are exhausted *exactly*: the next loading is 0/0 and the library hands NaN scores to
+        # LAPACK's lstsq, which raises LinAlgError or does not return at all (uninterruptible) -> not executed
+        discard("components not supported by the centred (integer) data")
     try:
-        e.fit(X.copy(), Y.copy())
+        e.fit(_L(X, case, 0), _L(Y, case, 1))
     except np.linalg.LinAlgError:
         # exactly exhausted data (integer X): the loading is 0/0 and lstsq on the NaN scores raises
         if case["ncomp"] > _support(X):
@@ -278,7 +309,8 @@ def ref_scores(Xc, loadings):
 def _plsr_labels(case, extra=()):
     order = len(case["sides"]) + 1
     return {"nontrivial": case["ncomp"] >= 2 or order >= 3,
-            "labels": [f"order={order}", f"ncomp={case['ncomp']}", f"p={case['p']}", f"iters={case['iters']}", f"xkind={case['xkind']}"] + list(extra)}
+            "labels": [f"order={order}", f"ncomp={case['ncomp']}", f"p={case['p']}", f"iters={case['iters']}", f"xkind={case['xkind']}",
+                       f"lay_fit={case['lays'][0]}", f"lay_use={case['lays'][2]}"] + list(extra)}
 
 
 def o_plsr_scores(case):
@@ -287,14 +319,14 @@ def o_plsr_scores(case):
     XF, YF, coef, xm, ym = _plsr_attrs(e, case, X=X)
     sx = max(float(np.max(np.abs(XF[0]))), 1e-300)
     sy = max(float(np.max(np.abs(YF[0]))), 1e-300)
-    t = e.transform(X.copy())
+    t = e.transform(_L(X, case, 2))
     close(t, XF[0], "plsr/transform(X_train)==X_factors[0]", rel=REL, scale=sx)
-    both = e.transform(X.copy(), Y.copy())
+    both = e.transform(_L(X, case, 2), _L(Y, case, 3))
     check(isinstance(both, tuple) and len(both) == 2, "plsr/transform(X,Y)/arity", "expected (X_scores, Y_scores)")
     close(both[0], XF[0], "plsr/transform(X_train,Y)[0]==X_factors[0]", rel=REL, scale=sx)
     close(both[1], YF[0], "plsr/transform(X_train,Y_train)[1]==Y_factors[0]", rel=REL, scale=max(sy, sx * float(np.max(np.abs(coef)))))
     e2 = CP_PLSR(case["ncomp"], **({} if case["iters"] is None else {"n_iter_max": case["iters"]}))
-    ft = e2.fit_transform(X.copy(), Y.copy())
+    ft = e2.fit_transform(_L(X, case, 0), _L(Y, case, 1))
     check(isinstance(ft, tuple) and len(ft) == 2, "plsr/fit_transform/arity", "expected (X_scores, Y_scores)")
     close(ft[0], XF[0], "plsr/fit_transform[0]==X_factors[0]", rel=MREL, scale=sx)
     close(ft[1], YF[0], "plsr/fit_transform[1]==Y_factors[0]", rel=MREL, scale=max(sy, sx * float(np.max(np.abs(coef)))))
@@ -326,12 +358,61 @@ def o_plsr_exposed(case):
     for tag, A in (("fresh", Xnew), ("train", X)):
         T = ref_scores(A - xm, XF[1:])
         sx = max(float(np.max(np.abs(T))), 1e-300)
-        close(e.transform(A.copy()), T, f"plsr/transform/{tag}", rel=REL, scale=sx)
+        close(e.transform(_L(A, case, 2)), T, f"plsr/transform/{tag}", rel=REL, scale=sx)
         want = T @ coef @ YF[1].T + ym
         sc = float(np.max(np.abs(T) @ np.abs(coef) @ np.abs(YF[1].T))) + float(np.max(np.abs(ym)))
-        got = assert_shape(e.predict(A.copy()), (A.shape[0], p), f"plsr/predict/{tag}/shape")
+        got = assert_shape(e.predict(_L(A, case, 2)), (A.shape[0], p), f"plsr/predict/{tag}/shape")
         close(got, want, f"plsr/predict/{tag}", rel=REL, scale=sc)
     return _plsr_labels(case)
+
+
+@st.composite
+def _plsr_int_case(draw, tier):
+    c = draw(_plsr_case(draw(st.sampled_from(["yvec", "ymat"])), tier))
+    c["pdtype"] = draw(st.sampled_from(["int64", "int32", "uint8", "bool"]))
+    c["fit_int"] = draw(st.sampled_from(["X", "X", "Y"]))
+    return c
+
+
+def o_plsr_int(case):
+    """integer / boolean X handed to predict / transform of a model fitted on floats: same values, float formula"""
+    X, Y, Xnew = _plsr_data(case)
+    e = _plsr_fit(case, X, Y)
+    XF, YF, coef, xm, ym = _plsr_attrs(e, case, X=X)
+    p = 1 if case["p"] is None else case["p"]
+    for tag, A in (("fresh", Xnew), ("train", X)):
+        Ai, Af = _cast(A, case["pdtype"])
+        T = ref_scores(Af - xm, XF[1:])
+        sx = max(float(np.max(np.abs(T))), 1e-300)
+        close(e.transform(_L(Ai, case, 2)), T, f"plsr/int/transform/{tag}", rel=REL, scale=sx)
+        want = T @ coef @ YF[1].T + ym
+        sc = float(np.max(np.abs(T) @ np.abs(coef) @ np.abs(YF[1].T))) + float(np.max(np.abs(ym)))
+        got = assert_shape(e.predict(_L(Ai, case, 2)), (A.shape[0], p), f"plsr/int/predict/{tag}/shape")
+        close(got, want, f"plsr/int/predict/{tag}", rel=REL, scale=sc)
+    # integer data at fit: same values as floats must give the same model (HEAD: exactly the same, 2c4d025)
+    Xi, Xf = (X, X)
+    Yi, Yf = (Y, Y)
+    if case["fit_int"] == "X":
+        Xi, Xf = _cast(X, case["pdtype"])
+    else:
+        Yi, Yf = _cast(Y, "int64" if case["pdtype"] in ("uint8", "bool") else case["pdtype"])
+        if not np.any(Yf - Yf.mean(axis=0)):
+            discard("integer Y is constant")
+    if case["ncomp"] > _support(Xf):
+        discard("components not supported by the centred (integer) data")
+    ci = dict(case, xkind="int")
+    ei = _plsr_fit(ci, Xi, Yi)
+    ef = _plsr_fit(ci, Xf, Yf)
+    a = _plsr_attrs(ef, case, "plsr/int/fit-float", X=Xf)
+    b = _plsr_attrs(ei, case, "plsr/int/fit-integer", X=Xf)
+    for i in range(len(a[0])):
+        close(b[0][i], a[0][i], f"plsr/int/fit/X_factors[{i}]", rel=REL, scale=max(float(np.max(np.abs(a[0][i]))), 1e-300))
+    for i in range(2):
+        close(b[1][i], a[1][i], f"plsr/int/fit/Y_factors[{i}]", rel=REL, scale=max(float(np.max(np.abs(a[1][i]))), 1e-300))
+    close(b[2], a[2], "plsr/int/fit/coef_", rel=REL, scale=max(float(np.max(np.abs(a[2]))), 1e-300))
+    pf = as_array(ef.predict(_L(Xnew, case, 2)), "plsr/int/fit/predict")
+    close(ei.predict(_L(Xnew, case, 2)), pf, "plsr/int/fit/predict", rel=REL, scale=max(float(np.max(np.abs(pf))), 1e-300))
+    return _plsr_labels(case, [f"pdtype={case['pdtype']}", f"fit_int={case['fit_int']}"])
 
 
 def _cmp_fits(a, b, tag, sx, sy, sc):
@@ -361,8 +442,8 @@ def o_plsr_shift(case):
     close(b[3], a[3] + C, "plsr/shift/X_mean_", rel=REL, scale=1.0 + float(np.max(np.abs(X))) + float(np.max(np.abs(C))))
     close(b[4], a[4] + cy, "plsr/shift/Y_mean_", rel=REL, scale=1.0 + float(np.max(np.abs(Y))) + float(np.max(np.abs(cy))))
     for tag, A in (("fresh", Xnew), ("train", X)):
-        p1 = as_array(e1.predict(A.copy()), "plsr/shift/predict") - a[4]
-        p2 = as_array(e2.predict(A + C), "plsr/shift/predict") - b[4]
+        p1 = as_array(e1.predict(_L(A, case, 2)), "plsr/shift/predict") - a[4]
+        p2 = as_array(e2.predict(_L(A + C, case, 2)), "plsr/shift/predict") - b[4]
         close(p2, p1, f"plsr/shift/predict-minus-offset/{tag}", rel=MREL, scale=max(float(np.max(np.abs(p1))), 1e-300) + 1e-3 * sy)
     return _plsr_labels(case, [f"shift0={not np.any(C) and not np.any(cy)}"])
 
@@ -380,12 +461,12 @@ def o_plsr_perm(case):
     _cmp_fits(a, b, "plsr/perm", sx, sy, sc)
     close(b[0][0], a[0][0][perm], "plsr/perm/X_scores", rel=MREL, scale=sx)
     close(b[1][0], a[1][0][perm], "plsr/perm/Y_scores", rel=MREL, scale=sy)
-    p1 = as_array(e1.predict(X.copy()), "plsr/perm/predict")
-    p2 = as_array(e2.predict(X[perm]), "plsr/perm/predict")
+    p1 = as_array(e1.predict(_L(X, case, 2)), "plsr/perm/predict")
+    p2 = as_array(e2.predict(_L(X[perm], case, 2)), "plsr/perm/predict")
     sp = max(float(np.max(np.abs(p1 - a[4]))), 1e-300) + 1e-3 * sy
     close(p2, p1[perm], "plsr/perm/predict-train", rel=MREL, scale=sp)
-    q1 = as_array(e1.predict(Xnew.copy()), "plsr/perm/predict")
-    q2 = as_array(e2.predict(Xnew.copy()), "plsr/perm/predict")
+    q1 = as_array(e1.predict(_L(Xnew, case, 2)), "plsr/perm/predict")
+    q2 = as_array(e2.predict(_L(Xnew, case, 2)), "plsr/perm/predict")
     close(q2, q1, "plsr/perm/predict-fresh", rel=MREL, scale=max(float(np.max(np.abs(q1 - a[4]))), 1e-300) + 1e-3 * sy)
     return _plsr_labels(case, [f"identity_perm={bool((perm == np.arange(case['n'])).all())}"])
 
@@ -451,6 +532,7 @@ def _reg_hist_case(draw, est, tier):
     else:
         B = dataset()
     c = {"A": A, "B": B, "shapes": same, "ops": draw(_ops()), "reg": draw(st.sampled_from([1e-3, 0.5, 1, 10])),
+         "lays": draw(LAYS), "pdtype": draw(st.sampled_from(PDTYPES)),
          "iters": draw(st.sampled_from([1, 3, 10])), "seed": draw(st.integers(0, 10 ** 4))}
     if est == "cp":
         c["rank"] = draw(st.integers(1, 3))
@@ -503,7 +585,7 @@ def o_reg_history(est):
             if op.startswith("fit:"):
                 cur = op[4:]
                 X, y, Xnew = data[cur]
-                e.fit(X.copy(), y.copy())
+                e.fit(_L(X, case, 0), _L(y, case, 1))
                 last = None
                 continue
             X, y, Xnew = data[cur]
@@ -515,14 +597,20 @@ def o_reg_history(est):
                 A = Xnew if op == "predict_fresh" else X
             last = A
             W = _exposed_dense(est, e, wshape, tag)
-            got = e.predict(A.copy())
-            close(got, contract(A, W), f"{tag}/equals-contraction-with-exposed-weights", rel=REL, scale=contract_scale(A, W))
+            if case.get("pdtype") and op != "predict_train":
+                Ai, A = _cast(A, case["pdtype"])
+                last = A
+            else:
+                Ai = A
+            got = e.predict(_L(Ai, case, 2))
+            close(got, contract(A, W), f"{tag}/equals-contraction-with-exposed-weights", rel=REL, scale=max(contract_scale(A, W), 1e-300))
             # depends only on the latest fit: a fresh estimator with the same parameters agrees
             f = _new_reg(est, case)
-            f.fit(X.copy(), y.copy())
-            close(got, f.predict(A.copy()), f"{tag}/equals-fresh-estimator", rel=MREL, scale=contract_scale(A, W))
+            f.fit(_L(X, case, 0), _L(y, case, 1))     # same values, same memory layout: a deterministic repeat
+            close(got, f.predict(_L(Ai, case, 2)), f"{tag}/equals-fresh-estimator", rel=MREL, scale=max(contract_scale(A, W), 1e-300))
         return {"nontrivial": _refit_used(case["ops"]),
-                "labels": [f"shapes={case['shapes']}", f"n_ops={len(case['ops'])}", f"refit_used={_refit_used(case['ops'])}"]}
+                "labels": [f"shapes={case['shapes']}", f"n_ops={len(case['ops'])}", f"refit_used={_refit_used(case['ops'])}",
+                           f"pdtype={case.get('pdtype')}", f"lay_use={case['lays'][2]}"]}
     return oracle
 
 
@@ -539,7 +627,7 @@ def _plsr_hist_case(draw, tier):
     B = dict(A, seed=draw(gen.seeds)) if same == "same_shape" else dataset()
     sup = min(min(d["n"] - 1, gen.prod(d["sides"])) for d in (A, B))
     return {"A": A, "B": B, "shapes": same, "ops": draw(_ops(extra=["transform_train", "transform_fresh", "transform_xy"])),
-            "ncomp": draw(st.integers(1, min(3, sup))), "iters": draw(st.sampled_from([None, None, 3]))}
+            "ncomp": draw(st.integers(1, min(3, sup))), "iters": draw(st.sampled_from([None, None, 3])), "lays": draw(LAYS)}
 
 
 def ref_yscores(Yc, T, coef, Q):
@@ -566,7 +654,7 @@ def o_plsr_history(case):
         if op.startswith("fit:"):
             cur = op[4:]
             d, X, Y, Xnew = data[cur]
-            e.fit(X.copy(), Y.copy())
+            e.fit(_L(X, case, 0), _L(Y, case, 1))
             last = None
             continue
         d, X, Y, Xnew = data[cur]
@@ -580,15 +668,15 @@ def o_plsr_history(case):
         T = ref_scores(A - xm, XF[1:])
         sx = max(float(np.max(np.abs(T))), 1e-300)
         f = CP_PLSR(case["ncomp"], **kw)
-        f.fit(X.copy(), Y.copy())
+        f.fit(_L(X, case, 0), _L(Y, case, 1))     # same values, same memory layout: a deterministic repeat
         if op.startswith("predict"):
             want = T @ coef @ YF[1].T + ym
             sc = float(np.max(np.abs(T) @ np.abs(coef) @ np.abs(YF[1].T))) + float(np.max(np.abs(ym)))
-            got = assert_shape(e.predict(A.copy()), (A.shape[0], p), f"{tag}/shape")
+            got = assert_shape(e.predict(_L(A, case, 2)), (A.shape[0], p), f"{tag}/shape")
             close(got, want, f"{tag}/equals-exposed-attributes", rel=REL, scale=sc)
-            close(got, f.predict(A.copy()), f"{tag}/equals-fresh-estimator", rel=MREL, scale=sc)
+            close(got, f.predict(_L(A, case, 2)), f"{tag}/equals-fresh-estimator", rel=MREL, scale=sc)
         elif op == "transform_xy":
-            both = e.transform(X.copy(), Y.copy())
+            both = e.transform(_L(X, case, 2), _L(Y, case, 3))
             check(isinstance(both, tuple) and len(both) == 2, f"{tag}/arity", "expected (X_scores, Y_scores)")
             sy = max(float(np.max(np.abs(YF[0]))), sx * float(np.max(np.abs(coef))), 1e-300)
             close(both[0], XF[0], f"{tag}/X_scores==X_factors[0]", rel=REL, scale=max(float(np.max(np.abs(XF[0]))), 1e-300))
@@ -596,13 +684,14 @@ def o_plsr_history(case):
             Tt = ref_scores(X - xm, XF[1:])
             close(both[1], ref_yscores(Y.reshape(len(Y), -1) - ym, Tt, coef, YF[1]), f"{tag}/Y_scores-from-exposed-attributes", rel=REL, scale=sy)
         else:
-            got = e.transform(A.copy())
+            got = e.transform(_L(A, case, 2))
             close(got, T, f"{tag}/equals-exposed-attributes", rel=REL, scale=sx)
-            close(got, f.transform(A.copy()), f"{tag}/equals-fresh-estimator", rel=MREL, scale=sx)
+            close(got, f.transform(_L(A, case, 2)), f"{tag}/equals-fresh-estimator", rel=MREL, scale=sx)
             if op == "transform_train":
                 close(got, XF[0], f"{tag}/==X_factors[0]", rel=REL, scale=max(float(np.max(np.abs(XF[0]))), 1e-300))
     return {"nontrivial": _refit_used(case["ops"]),
-            "labels": [f"shapes={case['shapes']}", f"n_ops={len(case['ops'])}", f"refit_used={_refit_used(case['ops'])}", f"ncomp={case['ncomp']}"]}
+            "labels": [f"shapes={case['shapes']}", f"n_ops={len(case['ops'])}", f"refit_used={_refit_used(case['ops'])}", f"ncomp={case['ncomp']}",
+                       f"lay_use={case['lays'][2]}"]}
 
 
 # ----------------------------------------------------------------------------
@@ -619,6 +708,7 @@ def subchecks(tier):
         subs.append(SubCheck(f"plsr/{yk}/exposed", _plsr_case(yk, tier), o_plsr_exposed, quick=400, thorough=3000))
         subs.append(SubCheck(f"plsr/{yk}/shift", _plsr_case(yk, tier, metamorphic=True), o_plsr_shift, quick=400, thorough=3000))
         subs.append(SubCheck(f"plsr/{yk}/permutation", _plsr_case(yk, tier, metamorphic=True), o_plsr_perm, quick=400, thorough=3000))
+    subs.append(SubCheck("plsr/int_dtype", _plsr_int_case(tier), o_plsr_int, quick=200, thorough=2000))
     subs.append(SubCheck("cp/history", _reg_hist_case("cp", tier), o_reg_history("cp"), quick=400, thorough=3000))
     subs.append(SubCheck("tucker/history", _reg_hist_case("tucker", tier), o_reg_history("tucker"), quick=400, thorough=3000))
     subs.append(SubCheck("plsr/history", _plsr_hist_case(tier), o_plsr_history, quick=400, thorough=3000))
